@@ -119,7 +119,7 @@ impl SubscriptionActor {
                 loop {
                     tokio::select! {
                         Some(request) = receiver.recv() => {
-                            actor.receive(request).await
+                            actor.receive(request, &mut receiver).await
                         },
                         Some(expired) = actor.outstanding.poll_next_expired() => {
                             actor.handle_expired_messages(expired);
@@ -138,7 +138,22 @@ impl SubscriptionActor {
     }
 
     /// Receives a request.
-    async fn receive(&mut self, request: SubscriptionRequest) {
+    async fn receive(
+        &mut self,
+        request: SubscriptionRequest,
+        receiver: &mut mpsc::Receiver<SubscriptionRequest>,
+    ) {
+        match request {
+            SubscriptionRequest::Delete { responder } => {
+                let result = self.delete(receiver).await;
+                let _ = responder.send(result);
+            }
+            other => self.receive_sync(other),
+        }
+    }
+
+    /// Handles every request other than `Delete`; none of them needs to wait.
+    fn receive_sync(&mut self, request: SubscriptionRequest) {
         match request {
             SubscriptionRequest::PostMessages { messages } => {
                 self.post_messages(messages);
@@ -166,8 +181,8 @@ impl SubscriptionActor {
                 let _ = responder.send(result);
             }
             SubscriptionRequest::Delete { responder } => {
-                let result = self.delete().await;
-                let _ = responder.send(result);
+                // Only reached while a deletion is already in progress (see `delete`).
+                let _ = responder.send(Ok(()));
             }
             SubscriptionRequest::GetStats { responder } => {
                 let result = self.get_stats();
@@ -262,21 +277,41 @@ impl SubscriptionActor {
     }
 
     /// Marks the subscription as deleted. Further requests will be no-ops.
-    async fn delete(&mut self) -> Result<(), DeleteError> {
+    async fn delete(
+        &mut self,
+        receiver: &mut mpsc::Receiver<SubscriptionRequest>,
+    ) -> Result<(), DeleteError> {
         if self.deleted {
             return Ok(());
         }
 
         self.deleted = true;
 
+        // Further deletions that arrive while this one is waiting for the topic are
+        // answered once it is done.
+        let mut pending_deletes = Vec::new();
+
         // If the topic is still around, remove ourselves from it's list of subscriptions.
         if let Some(topic) = self.topic.upgrade() {
-            topic
-                .remove_subscription(self.info.name.clone())
-                .await
-                .map_err(|e| match e {
-                    RemoveSubscriptionError::Closed => DeleteError::Closed,
-                })?;
+            let remove = topic.remove_subscription(self.info.name.clone());
+            tokio::pin!(remove);
+
+            // The topic may itself be waiting for room in our mailbox (it posts published
+            // messages to it), so keep draining the mailbox while we wait for the topic:
+            // now that we are marked as deleted every other request is a no-op anyway.
+            let removed = loop {
+                tokio::select! {
+                    result = &mut remove => break result,
+                    Some(request) = receiver.recv() => match request {
+                        SubscriptionRequest::Delete { responder } => pending_deletes.push(responder),
+                        other => self.receive_sync(other),
+                    },
+                }
+            };
+
+            removed.map_err(|e| match e {
+                RemoveSubscriptionError::Closed => DeleteError::Closed,
+            })?;
         }
 
         self.delegate.delete(&self.info.name);
@@ -286,6 +321,10 @@ impl SubscriptionActor {
 
         // Unregister the subscription from push.
         self.push_registry.set(self.info.name.clone(), None);
+
+        for responder in pending_deletes {
+            let _ = responder.send(Ok(()));
+        }
 
         Ok(())
     }
